@@ -354,21 +354,68 @@ func runCheck(cfg *runConfig) int {
 			fmt.Fprintf(os.Stderr, "slow: %s %.1fs (%d paths)\n", name, d, r.Paths)
 		}
 	}
+	// vacuity guard for the quantified navigator-tree axioms: they must hold in a concrete document
+	if cfg.fnFilter == "" || true {
+		used := map[string]bool{}
+		for _, n := range fns {
+			if fc := p.Ctr.Funcs[n]; fc != nil {
+				for _, a := range fc.Uses {
+					if ax := p.Ctr.Axioms[a]; ax != nil && strings.Contains(ax.Expr, "Pos") {
+						used[a] = true
+					}
+				}
+			}
+		}
+		if len(used) > 0 {
+			var names []string
+			for a := range used {
+				names = append(names, a)
+			}
+			sort.Strings(names)
+			o := &Obligation{Name: "axioms/cover/consistent-on-sample-document", Fn: "axioms", Kind: "cover", Site: strings.Join(names, ","), Cover: true}
+			if q, err := p.axiomConsistency(names, filepath.Join(cfg.verif, "theory", "sample_tree.model")); err == nil {
+				o.Query = q
+				pool.submit(o, func(o *Obligation) {
+					mu.Lock()
+					all = append(all, o)
+					mu.Unlock()
+				})
+			} else {
+				fmt.Fprintln(os.Stderr, "engine: axiom consistency query:", err)
+			}
+		}
+	}
 	genS := time.Since(genT0).Seconds()
 	pool.wait()
 	// an obligation that ran out of time while sixteen others were competing for the cores gets a
-	// second, longer look on a quiet machine before it is reported
+	// second, longer look (four at a time) before it is reported; when many time out the tree has
+	// changed in a way the proofs do not survive and a second look would only cost time
+	var again []*Obligation
 	for _, o := range all {
-		if o.Cover || o.Query == "" || (o.Status != "timeout" && o.Status != "unknown") {
-			continue
+		if !o.Cover && o.Query != "" && (o.Status == "timeout" || o.Status == "unknown") {
+			again = append(again, o)
 		}
-		r := pool.solveWith(o.Name+" (retry)", o.Query+"\n; retry\n", 3*timeout)
-		o.Status, o.Solver, o.Time = r.status, r.solver, o.Time+r.time
-		if r.status != "unsat" {
-			o.Model = r.output
-		} else {
-			o.Model = ""
+	}
+	if len(again) > 0 && len(again) <= 8 {
+		var wg sync.WaitGroup
+		lim := make(chan struct{}, 4)
+		for _, o := range again {
+			wg.Add(1)
+			lim <- struct{}{}
+			go func(o *Obligation) {
+				defer func() { <-lim; wg.Done() }()
+				r := pool.solveWith(o.Name+" (retry)", o.Query+"\n; retry\n", 3*timeout)
+				o.Status, o.Solver, o.Time = r.status, r.solver, o.Time+r.time
+				if r.status != "unsat" {
+					o.Model = r.output
+				} else {
+					o.Model = ""
+				}
+			}(o)
 		}
+		wg.Wait()
+	}
+	for _, o := range all {
 		o.Query = ""
 	}
 	if cfg.verbose {
@@ -482,6 +529,12 @@ func runCheck(cfg *runConfig) int {
 		}
 	}
 	for n, st := range covers {
+		if strings.HasPrefix(n, "axioms/") && st != "sat" && st != "unsat" {
+			violations++
+			failing = append(failing, n+" (consistency of the tree axioms not established: "+st+")")
+			fmt.Printf("VIOLATION property=%s replay=%s obligation=%s status=%s no-failing-input-found\n", cfg.prop,
+				writeReplay(cfg, cfg.prop, n, "the navigator-tree axioms could not be shown to hold in the sample document (solver: "+st+")", nil), n, st)
+		}
 		if st == "unsat" {
 			violations++
 			failing = append(failing, n+" (contradictory assumptions)")
